@@ -338,6 +338,8 @@ class Network(Cached):
         N, A, w = self.N, self.sp_A, self.node_weights
         if node < 0:
             node += N
+        if not 0 <= node < N:
+            raise IndexError(f"index ({node}) out of range")
 
         new_A = sp.lil_matrix((N+1, N+1))
         new_w = np.zeros(N+1)
